@@ -38,6 +38,10 @@ Judge_graph(e) ==
      \cup (IF c.acyc /\ ~IsTopo(c) THEN {"MACHINERY:not_topological"} ELSE {})
      \cup (IF c.acyc = cyc THEN {"MACHINERY:acyc_hint_wrong"} ELSE {})
      \cup (IF e.cyclic = cyc THEN {} ELSE {"is_cyclic"})
+     \cup (IF SetOf(e.sp_all) = StartSet(c) THEN {} ELSE {"startpoints()"})
+     \cup (IF SetOf(e.ep_all) = EndSet(c) THEN {} ELSE {"endpoints()"})
+     \cup (IF SetOf(e.ins_all) = Inputs(c) THEN {} ELSE {"inputs()"})
+     \cup (IF SetOf(e.outs_all) = Outputs(c) THEN {} ELSE {"outputs()"})
      \cup (IF cyc THEN (IF e.levels_raised THEN {} ELSE {"levelize_not_rejected_on_cyclic"})
            ELSE LET lt == LongestTo(c) IN
                 (IF e.levels_raised THEN {"levelize_raised:" \o e.levels_exc}
